@@ -5,6 +5,7 @@
 //! file is replaced by a stub that makes every dependent theorem fail loudly, and the
 //! failure is listed in <out-dir>/translate_report.json).
 mod ir;
+mod maccmd;
 mod phyio;
 mod statics;
 mod tables;
